@@ -16,6 +16,8 @@ pub enum Resp {
     Http { status: u16, body: String },
     /// accept and close without answering
     Drop,
+    /// non-2xx whose body echoes the request body it received
+    EchoHttp { status: u16 },
 }
 
 pub struct ScriptedProvider {
@@ -61,9 +63,13 @@ fn read_request(stream: &mut TcpStream) -> Option<(Vec<(String, String)>, Vec<u8
     Some((headers, body))
 }
 
-fn respond(stream: &mut TcpStream, resp: &Resp) {
+fn respond(stream: &mut TcpStream, resp: &Resp, request_body: &[u8]) {
     match resp {
         Resp::Drop => {}
+        Resp::EchoHttp { status } => {
+            let body = format!("{{\"error\":{{\"message\":\"bad request\",\"your_request\":{}}}}}", String::from_utf8_lossy(request_body));
+            let _ = write!(stream, "HTTP/1.1 {status} ERR\r\ncontent-type: application/json\r\ncontent-length: {}\r\nconnection: close\r\n\r\n{body}", body.len());
+        }
         Resp::Http { status, body } => {
             let _ = write!(stream, "HTTP/1.1 {status} ERR\r\ncontent-type: application/json\r\ncontent-length: {}\r\nconnection: close\r\n\r\n{body}", body.len());
         }
@@ -115,7 +121,7 @@ impl ScriptedProvider {
                 let v: Value = serde_json::from_slice(&body).unwrap_or(Value::Null);
                 reqs.lock().unwrap().push((headers, v));
                 let resp = script.next().unwrap_or(Resp::Sse { body: b"data: [DONE]\n\n".to_vec(), chunk: 0, cut_at: None });
-                respond(&mut stream, &resp);
+                respond(&mut stream, &resp, &body);
             }
         });
         ScriptedProvider { endpoint: format!("http://{addr}/v1/responses"), requests, stop, addr }
